@@ -331,8 +331,17 @@ def argument_positions(t, path=()):
 
 
 def definite_clashes(t):
-    """Argument positions whose occupant certainly has a type outside the parameter."""
-    return [(p, d) for (p, child, param, d) in argument_positions(t) if not (definite(child) & param)]
+    """Argument positions whose occupant certainly has a type outside the parameter,
+    and calls whose argument count fits no overload."""
+    out = [(p, d) for (p, child, param, d) in argument_positions(t) if not (definite(child) & param)]
+    from hplmc.absyn import subterms
+
+    for u in subterms(t):
+        if u[0] == 'call' and u[1] in FUNCTIONS:
+            n = len(u[2])
+            if not any(len(ps) == n or (len(ps) < n and v is not None) for ps, v, _r in FUNCTIONS[u[1]]):
+                out.append(((), f'argument count of {u[1]}'))
+    return out
 
 
 def eq_sibling_positions(t, path=()):
